@@ -47,7 +47,7 @@ def jfill(n, idv):
     return x
 
 
-def compose(ops, protocol=True, mt=None):
+def compose(ops, protocol=True, mt=None, logical=False):
     """Turn model ops (after thread_init) into (script lines, execution records
     skeleton, expected-bytes table).  mt = (k, n): script of thread k of an n-thread
     program (thread ids 1000+k, CPU k; all threads call ovni_thread_free together)."""
@@ -56,6 +56,8 @@ def compose(ops, protocol=True, mt=None):
     lines = (["proc_init 1 node0 1000"] if k == 0 else []) + (["barrier"] if mt else [])
     lines += ["thread_init %d" % tid] + (["cpu %d %d" % (c, c) for c in range(nth)] if k == 0 else [])
     lines += ["mark_type 1 0 verifmark"]
+    if logical:
+        lines.append("clockmode logical")     # the program's own time base: 0, 100, 200, ...
     recs = [("thread_init", {"op": "thread_init"})]
     table = {}
     nid = [0]
@@ -112,12 +114,12 @@ def compose(ops, protocol=True, mt=None):
 
 
 def run_script(drv, bdir, ops, want_emu, keep=None, shim=None, tmpdir=False, protocol=True, ids=(1000, 1000),
-               stale=False):
+               stale=False, logical=False):
     """Execute one op list; returns dict(execution=[records], problems=[...],
     emu=EmuRun|None, script=lines)."""
     d = core.mkscratch("rt")
     try:
-        lines, recs, table, dies = compose(ops, protocol=protocol)
+        lines, recs, table, dies = compose(ops, protocol=protocol, logical=logical)
         pid_, tid_ = ids
         if ids != (1000, 1000):
             # large pid / tid (pid_max may be 4194304): 7 digits in the metadata and in the paths
@@ -469,6 +471,18 @@ def main(pid, tier):
     results += core.pmap(lambda ops: run_script(drv, bdir, ops, want_emu, protocol=(pid != "C01")), small,
                          workers=core.NCPU)
     scripts = scripts + small
+    # programs with a time base of their own that starts at ZERO (no mark, no flush before the end: those are
+    # stamped by the library with its own clock): the clocks handed over are the clocks in the stream
+    own = [[{"op": "emit", "pay": 8, "kind": "u"}], [{"op": "emit", "pay": 0, "kind": "u"}, {"op": "emit", "pay": 16, "kind": "u"}],
+           [{"op": "jumbo", "n": 100}], [{"op": "emit", "pay": 2, "kind": "u"}, {"op": "jumbo", "n": 40}, {"op": "emit", "pay": 12, "kind": "u"}],
+           []]
+    results += core.pmap(lambda ops: run_script(drv, bdir, ops, want_emu, logical=True), own, workers=4)
+    if pid == "C01":
+        results += core.pmap(lambda ops: run_script(drv, bdir, ops, want_emu, logical=True, protocol=False), own[:4], workers=4)
+        scripts = scripts + own + own[:4]
+    else:
+        scripts = scripts + own
+    ck.notes["scripts"]["own_time_base_from_zero"] = len(own)
     ck.notes["scripts"]["under_short_writes"] = len([k for k in range(len(scripts)) if k % 3 == 1])
     ck.notes["scripts"]["relocated_from_tmpdir"] = len([k for k in range(len(scripts)) if k % 3 == 2 or k % 6 == 1])
     # multi-threaded protocol-conformant programs: 3 threads of one process, each running one of the
